@@ -1,61 +1,78 @@
 import NA.Model.IosSession
+import NA.Model.IosSkelTypes
 /-!
 # The IOS apply path as annotated programs: one term, two readings
 
-`Prog σ α` is a small program language whose leaves carry BOTH the Go statement they mirror (a token
-as `translate/iosskel` prints it) AND their semantics in the session monad of
-`NA/Model/IosSession.lean`; the inner nodes are the control structure that matters for C15
-(`defer`, the immediately invoked closure, `range`, `if`).  From one term
+`Prog σ α` is a small program language whose leaves carry BOTH an interaction step in the normal
+form of `translate/iosskel` (`SendCmd("end")`, `IssueCmd(_,"…")`, `reloadActive:=true`, …) AND their
+semantics in the session monad of `NA/Model/IosSession.lean`; the inner nodes are the control
+structure (`defer`, the immediately invoked closure, `range`, `if`).  From one term
 
-* `denote` gives the executable model — proved EQUAL to `applyCommands`, `cmd … true`, `check`,
-  `sendReloadCmd`, `cancelReload`, `prepareDevice` (`NA/Props/C15Skel.lean`), and
-* `skel` gives the call skeleton — proved equal to the one regenerated from `device.go`.
+* `denote` gives the executable model — proved EQUAL to `applyCommands … true`, `cmd … true`, `check`,
+  `sendReloadCmd`, `cancelReload`, `prepareDevice`, `stripReloadBanner` (`NA/Props/C15Skel.lean`), and
+* `paths` gives the set of acyclic paths of interaction steps — proved equal (as a set) to the one
+  regenerated from `device.go`.
 
-So dropping a `defer`, moving `s.writeMem()` into the closure, or removing the re-arm changes the
-regenerated skeleton, and changing the model's structure breaks the `denote` equations: the tie
-between the Lean model and the source is the term itself.
+Normal form (both sides): only device interactions, impure package functions, aborts and
+assignments to the watched variables `needReload` / `s.reloadActive` are steps; string arguments are
+constant-folded, every other argument is `_`; if/else polarity, guard clauses, early returns and
+temporaries do not matter (path sets); a condition contributes `?v=T/F` only if it reads a watched
+variable; `defer X` adds `defer:X` at the end of every path of its scope that passed the
+registration; `range` is one step `range{…}`; a path ending in an abort is marked `!`.
 -/
 namespace NA.Ios
 
 inductive Prog (σ : Type) : Type → Type 1 where
-  /-- a Go statement and what it does in the model -/
+  /-- an interaction step and what it does in the model -/
   | stmt {α : Type} (tok : String) (m : M σ α) : Prog σ α
-  /-- model bookkeeping without a statement of its own (value plumbing, side effects of a condition) -/
+  /-- `errlog.Abort`: ends the path -/
+  | abort {α : Type} (tok : String) (m : M σ α) : Prog σ α
+  /-- no interaction: value plumbing, pure computation -/
   | quiet {α : Type} (m : M σ α) : Prog σ α
   | bind {α β : Type} [Inhabited α] (p : Prog σ α) (f : α → Prog σ β) : Prog σ β
-  /-- `if tok { t }` (the else branch is the fall-through) -/
-  | ite {α : Type} (tok : String) (c : Bool) (t e : Prog σ α) : Prog σ α
-  /-- `defer tok` followed by the rest of the function body -/
+  /-- `if c { t } else { e }`; `watch = some v`: the condition reads the watched variable `v` -/
+  | ite {α : Type} (watch : Option String) (c : Bool) (t e : Prog σ α) : Prog σ α
+  /-- `defer tok` followed by the rest of the scope -/
   | defer_ {α : Type} (tok : String) (d : M σ Unit) (body : Prog σ α) : Prog σ α
   /-- `func() { body }()` -/
   | closure {α : Type} (body : Prog σ α) : Prog σ α
-  /-- `for _, x := range tok { body }` -/
-  | range {β : Type} [Inhabited β] (tok : String) (l : List β) (body : β → Prog σ Unit) : Prog σ Unit
-  /-- `name := func(params) { body }`: a local function; defining it does nothing -/
-  | localFn {β : Type} (tok : String) (body : Prog σ β) : Prog σ Unit
+  /-- `for _, x := range … { body }` -/
+  | range {β : Type} [Inhabited β] (l : List β) (body : β → Prog σ Unit) : Prog σ Unit
 
 namespace Prog
 variable {σ : Type}
 
 def denote : {α : Type} → Prog σ α → M σ α
   | _, .stmt _ m => m
+  | _, .abort _ m => m
   | _, .quiet m => m
   | _, @Prog.bind _ _ _ _ p f => bindM (denote p) (fun a => denote (f a))
   | _, .ite _ c t e => if c then denote t else denote e
   | _, .defer_ _ d body => finally_ (denote body) d
   | _, .closure body => denote body
-  | _, @Prog.range _ _ _ _ l body => forEach (fun x => denote (body x)) l
-  | _, .localFn _ _ => pureM ()
+  | _, @Prog.range _ _ _ l body => forEach (fun x => denote (body x)) l
 
-def skel : {α : Type} → Prog σ α → List String
-  | _, .stmt tok _ => [tok]
-  | _, .quiet _ => []
-  | _, @Prog.bind _ _ _ inst p f => skel p ++ skel (f (@default _ inst))
-  | _, .ite tok _ t _ => ["if " ++ tok ++ " {"] ++ skel t ++ ["}"]
-  | _, .defer_ tok _ body => ["defer " ++ tok] ++ skel body
-  | _, .closure body => ["func() {"] ++ skel body ++ ["}()"]
-  | _, @Prog.range _ _ inst tok _ body => ["range " ++ tok ++ " {"] ++ skel (body (@default _ inst)) ++ ["}"]
-  | _, .localFn tok body => [tok ++ " {"] ++ skel body ++ ["}"]
+def toAtoms : List Tok → List Atom
+  | [] => []
+  | .atom a :: r => a :: toAtoms r
+  | .range _ :: r => .step "?nested-range" :: toAtoms r
+
+def paths : {α : Type} → Prog σ α → List SkelPath
+  | _, .stmt tok _ => [([.atom (.step tok)], false)]
+  | _, .abort tok _ => [([.atom (.step tok)], true)]
+  | _, .quiet _ => [([], false)]
+  | _, @Prog.bind _ _ _ inst p f =>
+    (paths p).flatMap fun a =>
+      if a.2 then [a] else (paths (f (@default _ inst))).map fun b => (a.1 ++ b.1, b.2)
+  | _, .ite watch _ t e =>
+    let mark (v : Bool) : List Tok := match watch with
+      | some n => [.atom (.cond n v)]
+      | none => []
+    (paths t).map (fun a => (mark true ++ a.1, a.2)) ++ (paths e).map (fun a => (mark false ++ a.1, a.2))
+  | _, .defer_ tok _ body => (paths body).map fun a => (a.1 ++ [.atom (.deferred tok)], a.2)
+  | _, .closure body => paths body
+  | _, @Prog.range _ _ inst _ body =>
+    [([.range ((paths (body (@default _ inst))).map fun a => (toAtoms a.1, a.2))], false)]
 
 end Prog
 
@@ -67,78 +84,101 @@ open Prog
 
 /-- `prepareDevice` -/
 def prepareDeviceP : Prog σ Unit :=
-  .bind (.stmt "s.Conn.SendCmd(\"configure terminal\")" (sendCmd D confCmd)) fun _ =>
-  .bind (.stmt "s.Conn.SendCmd(\"no logging console\")" (sendCmd D (lit "no logging console"))) fun _ =>
-  .bind (.stmt "s.Conn.SendCmd(\"line vty 0 15\")" (sendCmd D (lit "line vty 0 15"))) fun _ =>
-  .bind (.stmt "s.Conn.SendCmd(\"logging synchronous level all\")" (sendCmd D (lit "logging synchronous level all"))) fun _ =>
-  .bind (.stmt "s.Conn.SendCmd(\"ip subnet-zero\")" (sendCmd D (lit "ip subnet-zero"))) fun _ =>
-  .bind (.stmt "s.Conn.SendCmd(\"ip classless\")" (sendCmd D (lit "ip classless"))) fun _ =>
-  .stmt "s.Conn.SendCmd(\"end\")" (sendCmd D endCmd)
+  .bind (.stmt "SendCmd(\"configure terminal\")" (sendCmd D confCmd)) fun _ =>
+  .bind (.stmt "SendCmd(\"no logging console\")" (sendCmd D (lit "no logging console"))) fun _ =>
+  .bind (.stmt "SendCmd(\"line vty 0 15\")" (sendCmd D (lit "line vty 0 15"))) fun _ =>
+  .bind (.stmt "SendCmd(\"logging synchronous level all\")" (sendCmd D (lit "logging synchronous level all"))) fun _ =>
+  .bind (.stmt "SendCmd(\"ip subnet-zero\")" (sendCmd D (lit "ip subnet-zero"))) fun _ =>
+  .bind (.stmt "SendCmd(\"ip classless\")" (sendCmd D (lit "ip classless"))) fun _ =>
+  .stmt "SendCmd(\"end\")" (sendCmd D endCmd)
 
 /-- `sendReloadCmd` -/
 def sendReloadCmdP (withDo : Bool) : Prog σ Unit :=
-  .bind (.stmt "cmd := fmt.Sprintf(\"reload in %d\", reloadMinutes)" (pureM (σ := σ) ())) fun _ =>
-  .bind (.ite "withDo" withDo (.quiet (pureM ())) (.quiet (pureM ()))) fun _ =>
-  .bind (.stmt "out := s.Conn.IssueCmd(cmd, `\\[yes\\/no\\]:\\ |\\[confirm\\]`)"
+  .bind (.stmt "IssueCmd(_,\"\\\\[yes\\\\/no\\\\]:\\\\ |\\\\[confirm\\\\]\")"
           (issueCmd D (if withDo then doReloadCmd else reloadCmd) ynPat
             [(lit "[yes/no]: ", false), (lit "[confirm]", false)])) fun out =>
-  .bind (.ite "strings.Contains(out, \"[yes/no]\")" (containsLit (lit "[yes/no]") out)
-          (.bind (.stmt "s.Conn.IssueCmd(\"n\", `\\[confirm\\]`)"
+  .bind (.ite none (containsLit (lit "[yes/no]") out)
+          (.bind (.stmt "IssueCmd(\"n\",\"\\\\[confirm\\\\]\")"
                     (issueCmd D (lit "n") "\\[confirm\\]" [(lit "[confirm]", false)])) fun _ => .quiet (pureM ()))
           (.quiet (pureM ()))) fun _ =>
-  .bind (.stmt "s.reloadActive = true" (setActive true)) fun _ =>
-  .stmt "s.Conn.SendCmd(\"\")" (sendCmd D [])
+  .bind (.stmt "reloadActive:=true" (setActive true)) fun _ =>
+  .stmt "SendCmd(\"\")" (sendCmd D [])
 
-def scheduleReloadP : Prog σ Unit := .stmt "s.sendReloadCmd(false)" (sendReloadCmd D false)
-def extendReloadP : Prog σ Unit := .stmt "s.sendReloadCmd(true)" (sendReloadCmd D true)
+def scheduleReloadP : Prog σ Unit := .stmt "sendReloadCmd(false)" (sendReloadCmd D false)
+def extendReloadP : Prog σ Unit := .stmt "sendReloadCmd(true)" (sendReloadCmd D true)
 
 /-- `cancelReload` -/
 def cancelReloadP : Prog σ Unit :=
-  .bind (.stmt "s.Conn.IssueCmd(\"reload cancel\", `--- SHUTDOWN ABORTED ---`)"
+  .bind (.stmt "IssueCmd(\"reload cancel\",\"--- SHUTDOWN ABORTED ---\")"
           (issueCmd D cancelCmd "--- SHUTDOWN ABORTED ---" [(lit "--- SHUTDOWN ABORTED ---", false)])) fun _ =>
-  .bind (.stmt "s.Conn.WaitShort(`[#] ?$`)" (waitHashEnd (σ := σ))) fun _ =>
-  .bind (.stmt "s.Conn.SendCmd(\"\")" (sendCmd D [])) fun _ =>
-  .stmt "s.reloadActive = false" (setActive false)
+  .bind (.stmt "WaitShort(\"[#] ?$\")" (waitHashEnd (σ := σ))) fun _ =>
+  .bind (.stmt "SendCmd(\"\")" (sendCmd D [])) fun _ =>
+  .stmt "reloadActive:=false" (setActive false)
+
+/-- the two probes of `stripReloadBanner` -/
+def stripProbeP (pre post : Str) : Prog σ Str :=
+  .ite none (blank (pre ++ post))
+    (.bind (.stmt "WaitShort(\"[#] ?$\")" (waitHashEnd (σ := σ))) fun o => .stmt "StripStdPrompt(_)" (stripStdPrompt o))
+    (.ite none (!pre.isEmpty && blank post)
+      (.bind (.stmt "TryPrompt()" (tryPrompt (σ := σ))) fun _ => .quiet (pureM (pre ++ post)))
+      (.quiet (pureM (pre ++ post))))
+
+/-- `stripReloadBanner` -/
+def stripReloadBannerP (out : Str) : Prog σ (Str × Bool) :=
+  .bind (.quiet (getActive (σ := σ))) fun act =>
+  .ite (some "reloadActive") act
+    (.ite none (bannerFind out).isSome
+      (.bind (stripProbeP (σ := σ) ((bannerFind out).getD default).1 ((bannerFind out).getD default).2.2) fun o =>
+        .quiet (pureM (o, oneMinute ((bannerFind out).getD default).2.1)))
+      (.quiet (pureM (out, false))))
+    (.quiet (pureM (out, false)))
 
 /-- the closure `check` of `cmd` (code after the repair of F-C15: the flag is accumulated) -/
 def checkP (ci : Str) : Prog σ Bool :=
-  .bind (.stmt "out := s.Conn.GetOutput()" (getOutput (σ := σ))) fun out =>
-  .bind (.stmt "out, need := s.stripReloadBanner(out)" (stripReloadBanner (σ := σ) out)) fun p =>
-  .bind (.stmt "needReload = needReload || need" (pureM (σ := σ) ())) fun _ =>
-  .bind (.stmt "out = s.Conn.StripEcho(ci, out)" (stripEcho (σ := σ) ci p.1)) fun o =>
-  .bind (.ite "out != \"\"" (!o.isEmpty)
-          (.bind (.quiet (forEach (warn (σ := σ) ci) (validOutput (splitOnNL o)).1)) fun _ =>
-           .ite "!isValidOutput(ci, out)" (!(validOutput (splitOnNL o)).2)
-             (.stmt "errlog.Abort(\"Got unexpected output from '%s':\\n%s\", ci, out)" (abortM (.unexpectedOutput ci o)))
+  .bind (.stmt "GetOutput()" (getOutput (σ := σ))) fun out =>
+  .bind (.stmt "stripReloadBanner(_)" (stripReloadBanner (σ := σ) out)) fun p =>
+  .bind (.stmt "needReload|=_" (pureM (σ := σ) ())) fun _ =>
+  .bind (.stmt "StripEcho(_,_)" (stripEcho (σ := σ) ci p.1)) fun o =>
+  .bind (.ite none (!o.isEmpty)
+          (.bind (.stmt "isValidOutput(_,_)" (forEach (warn (σ := σ) ci) (validOutput (splitOnNL o)).1)) fun _ =>
+           .ite none (!(validOutput (splitOnNL o)).2)
+             (.abort "Abort()" (abortM (.unexpectedOutput ci o)))
              (.quiet (pureM ())))
           (.quiet (pureM ()))) fun _ =>
   .quiet (pureM p.2)
 
 /-- `cmd` -/
 def cmdP (c : Str) : Prog σ Unit :=
-  .bind (.stmt "c1, c2, _ := strings.Cut(cmd, \"\\n\")" (pureM (σ := σ) ())) fun _ =>
-  .bind (.stmt "s.Conn.Send(cmd)" (send D c)) fun _ =>
-  .bind (.stmt "needReload := false" (pureM (σ := σ) ())) fun _ =>
-  .bind (.localFn "check := func(ci)" (checkP (σ := σ) [])) fun _ =>
-  .bind (.stmt "check(c1)" (Prog.denote (checkP (σ := σ) (cutNL c).1))) fun n1 =>
-  .bind (.ite "c2 != \"\"" (!(cutNL c).2.isEmpty)
-          (.bind (.stmt "check(c2)" (Prog.denote (checkP (σ := σ) (cutNL c).2))) fun n2 => .quiet (pureM (n1 || n2)))
+  .bind (.stmt "Send(_)" (send D c)) fun _ =>
+  .bind (.stmt "needReload:=false" (pureM (σ := σ) ())) fun _ =>
+  .bind (.stmt "check(_)" (Prog.denote (checkP (σ := σ) (cutNL c).1))) fun n1 =>
+  .bind (.ite none (!(cutNL c).2.isEmpty)
+          (.bind (.stmt "check(_)" (Prog.denote (checkP (σ := σ) (cutNL c).2))) fun n2 => .quiet (pureM (n1 || n2)))
           (.quiet (pureM n1))) fun need =>
-  .ite "needReload" need (.stmt "s.extendReload()" (extendReload D)) (.quiet (pureM ()))
+  .ite (some "needReload") need (.stmt "extendReload()" (extendReload D)) (.quiet (pureM ()))
 
 /-- `ApplyCommands` -/
 def applyCommandsP (cs : List Str) : Prog σ Unit :=
-  .bind (.stmt "s.Conn.SetLogFH(logFh)" (pureM (σ := σ) ())) fun _ =>
-  .bind (.stmt "s.prepareDevice()" (prepareDevice D)) fun _ =>
+  .bind (.stmt "SetLogFH(_)" (pureM (σ := σ) ())) fun _ =>
+  .bind (.stmt "prepareDevice()" (prepareDevice D)) fun _ =>
   .bind (.closure
-          (.bind (.stmt "s.scheduleReload()" (scheduleReload D)) fun _ =>
-           .defer_ "s.cancelReload()" (cancelReload D)
-            (.bind (.stmt "s.Conn.SendCmd(\"configure terminal\")" (sendCmd D confCmd)) fun _ =>
-             .defer_ "s.Conn.SendCmd(\"end\")" (sendCmd D endCmd)
-              (.range "s.Changes" cs fun chg => .stmt "s.cmd(chg)" (cmd D true chg))))) fun _ =>
-  .bind (.stmt "s.writeMem()" (writeMem D 2)) fun _ =>
-  .stmt "return nil" (pureM ())
+          (.bind (.stmt "scheduleReload()" (scheduleReload D)) fun _ =>
+           .defer_ "cancelReload()" (cancelReload D)
+            (.bind (.stmt "SendCmd(\"configure terminal\")" (sendCmd D confCmd)) fun _ =>
+             .defer_ "SendCmd(\"end\")" (sendCmd D endCmd)
+              (.range cs fun chg => .stmt "cmd(_)" (cmd D true chg))))) fun _ =>
+  .stmt "writeMem()" (writeMem D 2)
 
 end programs
+
+/-- `writeMem`: its retry loop is not a `Prog`; the declared path set (the semantics of the model's
+`writeMem` is tied by the dialogues) -/
+def writeMemPaths : List SkelPath :=
+  let issue : Tok := .atom (.step "IssueCmd(\"write memory\",\"#[ ]?|\\\\[confirm\\\\]\")")
+  let get : Tok := .atom (.step "GetCmdOutput(\"\")")
+  let ab : Tok := .atom (.step "Abort()")
+  let lp : Tok := .atom (.step "loop")
+  [([issue], false), ([issue, ab], true), ([issue, lp], false),
+   ([issue, get], false), ([issue, get, ab], true), ([issue, get, lp], false)]
 
 end NA.Ios
